@@ -31,6 +31,7 @@ pub mod c02;
 pub mod c03;
 pub mod c04;
 pub mod c05;
+pub mod c06;
 pub mod c15;
 pub mod c16;
 pub mod c17;
@@ -46,6 +47,7 @@ pub fn lookup(id: &str) -> Option<&'static dyn Prop> {
         "C03" => Some(&c03::C03),
         "C04" => Some(&c04::C04),
         "C05" => Some(&c05::C05),
+        "C06" => Some(&c06::C06),
         "C15" => Some(&c15::C15),
         "C16" => Some(&c16::C16),
         "C17" => Some(&c17::C17),
